@@ -44,6 +44,7 @@ type Env struct {
 	calleeMode bool
 	capt       map[string]capturedVar // captured variables of a closure contract (caller side)
 	twoHeaps   bool                   // lemma context: old(e) reads a second, independent heap
+	loop       *loopInfo              // loop whose invariant is being evaluated (`iter` = its iteration count)
 }
 
 func (g *FnGen) newEnv(cur, old *State) *Env {
@@ -280,8 +281,25 @@ func (e *Env) ident(name string) TVal {
 		_, isParam := g.params[name]
 		if !(isParam && (e.post || e.oldMode)) {
 			if _, isLocal := e.cur.names[name]; name == "iter" && !isLocal {
+				if e.loop != nil && e.loop.rangeIdx != nil {
+					if t, ok := e.cur.locals[e.loop.rangeIdx]; ok {
+						return TVal{term: app("+", t, "1"), ty: intTy()}
+					}
+				}
 				if a, ok := e.cur.names["rangeindex"]; ok {
 					return TVal{term: app("+", e.cur.locals[a], "1"), ty: intTy()}
+				}
+			}
+			if strings.HasPrefix(name, "iter") && len(name) > 4 {
+				// iterK: iteration count of loop K (for invariants of nested loops)
+				if k, err := strconv.Atoi(name[4:]); err == nil {
+					for _, li := range g.loops {
+						if li.ordinal == k && li.rangeIdx != nil {
+							if t, ok := e.cur.locals[li.rangeIdx]; ok {
+								return TVal{term: app("+", t, "1"), ty: intTy()}
+							}
+						}
+					}
 				}
 			}
 			if a, ok := e.cur.names[name]; ok {
